@@ -531,18 +531,25 @@ func c02r4(rc *core.RC) {
 						verdict, why = "bad", fmt.Sprintf("the slot is cleared under `%s`, which is not equivalent to `%s <= %s`: a slot at or past the caller's length that the guard skips still holds what an earlier call left in the pooled array", core.Src(p.Fset, ifs.Cond), srcLen.Name(), sl.idx.Name())
 						return true
 					}
-					// every branch of the body stores
-					all := true
-					for _, st := range ifs.Body.List {
-						if in, ok := st.(*ast.IfStmt); ok {
-							if !(storesThrough(info, in.Body, sl.ep) || storesThroughAddr(info, in.Body, sl.ep)) {
-								all = false
+					// every path through the body stores
+					var definitely func(st ast.Stmt) bool
+					definitely = func(st ast.Stmt) bool {
+						switch x := st.(type) {
+						case *ast.BlockStmt:
+							for _, y := range x.List {
+								if definitely(y) {
+									return true
+								}
 							}
-							if in.Else == nil || !(storesThrough(info, in.Else, sl.ep) || storesThroughAddr(info, in.Else, sl.ep)) {
-								all = false
-							}
+							return false
+						case *ast.IfStmt:
+							return x.Else != nil && definitely(x.Body) && definitely(x.Else)
+						case *ast.ForStmt, *ast.RangeStmt, *ast.SwitchStmt:
+							return false
 						}
+						return storesThrough(info, st, sl.ep) || storesThroughAddr(info, st, sl.ep)
 					}
+					all := definitely(ifs.Body)
 					if all {
 						verdict = "ok"
 					} else {
